@@ -319,8 +319,8 @@ class Tripwires:
 
 
 # ------------------------------------------------------------------- window
-_OS_FUNCS = ("stat", "lstat", "getcwd", "chdir", "readlink", "listdir", "mkdir", "unlink", "remove", "rmdir", "rename", "replace", "access", "open", "write", "read", "close", "fsync", "fdatasync", "fstat", "utime", "scandir", "fdopen", "chmod", "lchmod", "fchmod", "chown", "lchown", "fchown", "symlink", "link", "truncate", "ftruncate")
-_UNMODELLED = ("mkfifo", "mknod", "statvfs", "fwalk", "lseek", "dup", "dup2", "pipe", "sendfile", "openpty")
+_OS_FUNCS = ("listxattr", "getxattr", "setxattr", "removexattr", "lseek", "sendfile", "stat", "lstat", "getcwd", "chdir", "readlink", "listdir", "mkdir", "unlink", "remove", "rmdir", "rename", "replace", "access", "open", "write", "read", "close", "fsync", "fdatasync", "fstat", "utime", "scandir", "fdopen", "chmod", "lchmod", "fchmod", "chown", "lchown", "fchown", "symlink", "link", "truncate", "ftruncate")
+_UNMODELLED = ("mkfifo", "mknod", "statvfs", "fwalk", "dup", "dup2", "pipe", "openpty", "copy_file_range", "splice", "pread", "pwrite", "readv", "writev")
 
 
 class Window:
@@ -366,6 +366,41 @@ class Window:
         os.fsync = lambda fd: fs.os_fsync(fd) if (not isinstance(fd, int) or fd >= fs.FD_BASE) else real_fsync(fd)
         os.fdatasync = os.fsync
         os.fstat = lambda fd: fs.os_fstat(fd) if fd >= fs.FD_BASE else real_fstat(fd)
+        # extended attributes: a file system without any (what tmpfs and most build hosts show)
+        import errno as _errno
+
+        def _xattr_path(p, follow_symlinks=True):
+            if isinstance(p, int):
+                fs.os_fstat(p)
+            else:
+                fs.stat(p, follow_symlinks=follow_symlinks)
+
+        def _listxattr(path=None, *, follow_symlinks=True):
+            _xattr_path("." if path is None else path, follow_symlinks)
+            return []
+
+        def _getxattr(path, attribute, *, follow_symlinks=True):
+            _xattr_path(path, follow_symlinks)
+            raise OSError(_errno.ENODATA, os.strerror(_errno.ENODATA), os.fspath(path) if not isinstance(path, int) else None)
+
+        def _setxattr(path, attribute, value, flags=0, *, follow_symlinks=True):
+            _xattr_path(path, follow_symlinks)
+            raise OSError(_errno.ENOTSUP, os.strerror(_errno.ENOTSUP), os.fspath(path) if not isinstance(path, int) else None)
+
+        if hasattr(os, "listxattr"):
+            os.listxattr, os.getxattr, os.setxattr, os.removexattr = _listxattr, _getxattr, _setxattr, _getxattr
+        real_lseek, real_sendfile = sv["os.lseek"], sv.get("os.sendfile")
+        os.lseek = lambda fd, pos, how: fs.os_lseek(fd, pos, how) if fd >= fs.FD_BASE else real_lseek(fd, pos, how)
+        if real_sendfile is not None:
+            os.sendfile = lambda out_fd, in_fd, offset, count: fs.os_sendfile(out_fd, in_fd, offset, count) if (out_fd >= fs.FD_BASE or in_fd >= fs.FD_BASE) else real_sendfile(out_fd, in_fd, offset, count)
+        try:
+            import fcntl as _fcntl
+
+            for name in ("flock", "lockf"):
+                sv["fcntl." + name] = getattr(_fcntl, name)
+                setattr(_fcntl, name, (lambda real: lambda fd, *a: None if (fd if isinstance(fd, int) else fd.fileno()) >= fs.FD_BASE else real(fd, *a))(getattr(_fcntl, name)))
+        except ImportError:
+            pass
         os.utime = fs.utime
         os.chmod = fs.chmod
         os.fchmod = fs.chmod
@@ -471,5 +506,9 @@ class Window:
                 setattr(os, name, val)
             elif mod == "posixpath":
                 setattr(posixpath, name, val)
+            elif mod == "fcntl":
+                import fcntl as _fcntl
+
+                setattr(_fcntl, name, val)
         sys.stderr, sys.stdout, sys.argv = sv["sys.stderr"], sv["sys.stdout"], sv["sys.argv"]
         return False
